@@ -205,7 +205,12 @@ func ruleBuildPipeline(w *World, r *Report, rFill, rCycle, rLifetimes, rDeps, rS
 	}
 	p := analysePipelineWith(w, fill)
 	if p.alloc == nil {
-		r.Fail(rCycle, fi.Name()+"#provider-alloc", fi.Decl.Pos(), "no provider allocation in doBuild")
+		for _, id := range []string{rCycle, rFill, rLifetimes, rDeps, rSingletons} {
+			if id != "" {
+				r.Undecided(id, fi.Name()+"#provider-alloc", fi.Decl.Pos(), "the function that runs the cycle check (%s) does not allocate the provider: the build pipeline is not in one function (or a tail helper) any more, its order cannot be decided", fi.Name())
+				break
+			}
+		}
 		return
 	}
 	at := p.must.Before[p.alloc]
@@ -680,6 +685,8 @@ func checkC07(w *World, r *Report) {
 	r.Rule("R07.3", 3, "every registration is checked: the lifetime table is complete before the first check and is not written afterwards; every element of every view is passed to the check; the check's loop over dependencies is left only by `continue` or by returning the conflict")
 	r.Rule("R07.8", 3, "lifetime validation sees the lifetime the registration asked for: Descriptor.Lifetime is only ever the Lifetime parameter or a copy of the base descriptor's")
 	r.Try(func() { ruleLifetimeSource(w, r, "R07.8") })
+	r.Rule("R07.9", 3, "the lifetime Build validated is the lifetime resolution uses: a registered descriptor is never changed in place")
+	r.Try(func() { ruleDescriptorImmutable(w, r, "R07.9") })
 	r.Rule("R07.4", 2, "group dependencies are checked against every member of the group (group-keyed lookup in the groups view); plain and keyed dependencies against the table entry for exactly (Type, Key)")
 	r.Rule("R07.5", 2, "the conflict is raised exactly when the dependency's lifetime is Scoped, as a LifetimeConflictError")
 	r.Rule("R07.6", 3, "every descriptor created for a multi-output registration copies Lifetime, Constructor and Dependencies from the base descriptor")
@@ -743,6 +750,64 @@ func checkC07(w *World, r *Report) {
 				}
 				if !okD {
 					bad = "the dependent is exempted from the check on the condition " + exprStr(ifs.Cond) + " (only `Lifetime == Scoped` may exempt a dependent: transients must be checked too, or a singleton reaches scoped services through them)"
+				}
+			}
+			return true
+		})
+		// every other exit ahead of the dependency loop: only a nil descriptor, an empty dependency
+		// list or the Scoped exemption may end the check of a registration before it started
+		var stack []ast.Node
+		ast.Inspect(lc.body, func(x ast.Node) bool {
+			if x == nil {
+				stack = stack[:len(stack)-1]
+				return true
+			}
+			stack = append(stack, x)
+			if _, isLit := x.(*ast.FuncLit); isLit && x.Pos() != lc.body.Pos() && len(stack) > 1 {
+				return true
+			}
+			ret, ok := x.(*ast.ReturnStmt)
+			if !ok || ret.Pos() > lc.depLoop.Pos() {
+				return true
+			}
+			for i := len(stack) - 2; i >= 0; i-- {
+				ifs, isIf := stack[i].(*ast.IfStmt)
+				if !isIf {
+					continue
+				}
+				// the return must be in the if's body (not in its else)
+				if !(ifs.Body.Pos() <= ret.Pos() && ret.Pos() < ifs.Body.End()) {
+					continue
+				}
+				var disjuncts []ast.Expr
+				var split func(e ast.Expr)
+				split = func(e ast.Expr) {
+					if be, ok := unparen(e).(*ast.BinaryExpr); ok && be.Op == token.LOR {
+						split(be.X)
+						split(be.Y)
+						return
+					}
+					disjuncts = append(disjuncts, unparen(e))
+				}
+				split(ifs.Cond)
+				for _, d := range disjuncts {
+					okD := false
+					if be, ok := d.(*ast.BinaryExpr); ok && be.Op == token.EQL {
+						if isNilIdent(info, be.Y) || isNilIdent(info, be.X) {
+							okD = true
+						}
+						if isFieldNamed(info, be.X, "Lifetime") {
+							okD = true // judged above
+						}
+						if c, isC := unparen(be.X).(*ast.CallExpr); isC && exprStr(c.Fun) == "len" && len(c.Args) == 1 && isFieldNamed(info, c.Args[0], "Dependencies") {
+							if lit, isLit := unparen(be.Y).(*ast.BasicLit); isLit && lit.Value == "0" {
+								okD = true
+							}
+						}
+					}
+					if !okD && bad == "" {
+						bad = "the check of a registration ends before its dependencies are looked at on the condition " + exprStr(ifs.Cond) + " (only a nil descriptor, an empty dependency list or `Lifetime == Scoped` may do that): registrations the condition holds for are never validated"
+					}
 				}
 			}
 			return true
@@ -1050,6 +1115,10 @@ func checkC08(w *World, r *Report) {
 	ruleFieldFilters(w, r, "R08.5")
 	r.Rule("R08.6", 6, "the graph has one edge per declared dependency (verbatim getters): a set is not rejected for a cycle the dependency lists do not contain")
 	r.Try(func() { ruleGraphSeesAllDependencies(w, r, "R08.6") })
+	r.Rule("R08.12", 3, "the registrations Build validates are the registrations resolution can reach: every writer of the services / groups views keeps the descriptor list in step, and a removal drops exactly the descriptor it found")
+	r.Try(func() { reexport(w, r, "R08.12", func(sub *Report) { checkC17(w, sub) }, "R17.1", "R17.8") })
+	r.Rule("R08.13", 3, "what Build validated is what is resolved: a registered descriptor is never changed in place (a registration swapped under its key is not re-checked for presence of its dependencies)")
+	r.Try(func() { ruleDescriptorImmutable(w, r, "R08.13") })
 	r.Rule("R08.7", 1, "a descriptor's dependency list is the analyzer's list, unfiltered: what is injected is what is checked for presence")
 	r.Try(func() { ruleDependenciesUnfiltered(w, r, "R08.7") })
 	r.Rule("R08.11", 1, "a constructor that succeeded is not reported as failed: its error result is tested for nil on the reflect.Value before it is converted to error")
